@@ -23,7 +23,8 @@
    portfolio weights, portfolio returns (section 5: the same three guards, the same shape of
    statements), format and infer (section 6: the syntax-level commands end in one of their proper
    results, never in CmdPanic / CmdOutOfFuel / InferBad - C07_fuel, C08_cmd_total and C15_total at
-   the command level). *)
+   the command level).  "Any flag values": section 7 (every value parser total, the argument list,
+   cobra's validation) and section 8 (regexp.Compile on every string: Model/RxSyntax.v). *)
 From Coq Require Import ZArith QArith List Bool.
 From Knut Require Import Model.Str Model.Dec Model.Date Model.Account Model.Ledger Model.Journal
      Model.Pipeline Model.Table Model.Cli Model.Loader Model.CliSafe Spec.FailSpec Proofs.LoaderProofs Proofs.NoPanic.
@@ -484,8 +485,9 @@ Print Assumptions C14_error_empty_stdout_syntax.
 (* "... and any flag values": the value parsers behind knut's flags (cmd/flags, pflag's int/int32/bool on
    strconv, time.Parse for dates), pflag's reading of the argument list and cobra's validation before Run
    (Model/Flags.v), and the commands behind their command lines (Model/CliFlags.v).  regexp.Compile is
-   classified on a sublanguage only ([rx_class]; [RxUnknown] outside it), so the statements about regular
-   expressions carry a third alternative; everything else is total. *)
+   decided on every string by Model/RxSyntax.v ([rx_valid]: regexp/syntax.Parse with the flags syntax.Perl,
+   section 8 below), so every value parser is total. *)
+From Knut Require Import Model.RxSyntax.   (* first: the names of the modules below take precedence *)
 From Knut Require Import Model.Flags Model.CliFlags Proofs.FlagsProofs.
 
 (* a rejected command line (a rejected flag value, an unknown flag, a missing argument, the wrong number of
@@ -532,22 +534,22 @@ Theorem C14_accepted_values_in_range : forall c argv sets pos,
 Proof. exact cmdline_values_in_range. Qed.
 Print Assumptions C14_accepted_values_in_range.
 
-(* every string is either accepted with a value in range or rejected: for every flag kind whose parser is
-   modelled on all strings (bool, int, int32, date, the string flags) ... *)
-Theorem C14_flags_total : forall k s, total_kind k = true ->
+(* every string is either accepted with a value in range or rejected, for every flag kind: bool, int, int32,
+   date, the string flags, and the two kinds that compile a regular expression (--account --commodity
+   --remap -s, -m <level>[:<suffix>][,<regex>]) - the result type has no third case *)
+Theorem C14_flags_total : forall k s,
   (exists v, parse_value k s = VOk v /\ value_in_range k v = true) \/ (exists e, parse_value k s = VErr e).
-Proof. exact flags_total_strict. Qed.
+Proof. exact flags_total. Qed.
 Print Assumptions C14_flags_total.
 
-(* ... and for the two kinds that compile a regular expression (--account --commodity --remap -s, -m) up
-   to the classification of the expression.  Full statement: the same as C14_flags_total for every k; it
-   needs a model of regexp/syntax on all strings, [rx_class] answers RxUnknown outside its sublanguage. *)
-Theorem C14_flags_total_rx_partial : forall k s,
-  (exists v, parse_value k s = VOk v /\ value_in_range k v = true) \/
-  (exists e, parse_value k s = VErr e) \/
-  (parse_value k s = VUnknown /\ total_kind k = false).
-Proof. exact flags_total. Qed.
-Print Assumptions C14_flags_total_rx_partial.
+(* a regular-expression flag accepts exactly the strings regexp/syntax parses *)
+Theorem C14_regex_flag_iff : forall s,
+  (parse_value KRegex s = VOk (VRegex s) <-> rx_valid s = true) /\
+  (parse_value KRegex s = VErr ERegex <-> rx_valid s = false).
+Proof.
+  intros s. cbn [parse_value]. destruct (rx_valid s); split; split; intros H; try reflexivity; discriminate.
+Qed.
+Print Assumptions C14_regex_flag_iff.
 
 (* strconv.ParseInt(s, 0, bits) as pflag calls it: an accepted value fits the flag's integer type *)
 Theorem C14_int_flag_range : forall s bits n, 1 <= bits -> parse_int s 0 bits = NOk n ->
@@ -559,15 +561,9 @@ Print Assumptions C14_int_flag_range.
    suffix >= 0 (fix 78c5401), and the expression, if there is one, compiles *)
 Theorem C14_mapping_flag_iff : forall v l sf r,
   parse_mapping v = MapOk l sf r <->
-  mapping_text v l sf r /\ 0 <= l /\ 0 <= sf /\ (forall x, r = Some x -> rx_class x = RxOk).
+  mapping_text v l sf r /\ 0 <= l /\ 0 <= sf /\ (forall x, r = Some x -> rx_valid x = true).
 Proof. exact mapping_flag_iff. Qed.
 Print Assumptions C14_mapping_flag_iff.
-
-(* the model has no opinion on a -m value only because of its expression *)
-Theorem C14_mapping_flag_unknown : forall v, parse_mapping v = MapUnknown ->
-  exists nums x, v = nums ++ 44 :: x /\ rx_class x = RxUnknown.
-Proof. exact parse_mapping_unknown. Qed.
-Print Assumptions C14_mapping_flag_unknown.
 
 (* the guard [mapping_nonneg] of the no-panic theorems (sections 2 and 5) holds for every command line
    cobra lets through: after 78c5401 account.Shorten cannot be reached with a negative number *)
@@ -636,3 +632,71 @@ Example C14_run_argv_example :
   run_argv CmdTranscode 0 [[106]] fs = ORun PredERR /\
   run_argv CmdBalance 0 [[45;45;104;101;108;112]; [106]] fs = OHelp.
 Proof. vm_compute. repeat split. Qed.
+
+(* ---------------------------------------------------------------- (8) regular expressions on all strings *)
+(* regexp.Compile as knut's RegexFlag.Set and MappingFlag.Set call it: regexp/syntax.Parse(s, syntax.Perl)
+   followed by Simplify and Compile, which cannot fail.  Model/RxSyntax.v follows the parser (go1.23.5) on
+   every byte string, including the tree it builds and the counters behind its three limits; [rx_parse] is
+   the tree or the error, [rx_valid] says whether there is a tree. *)
+From Knut Require Import Proofs.RxLexProofs Proofs.RxSyntaxProofs.
+
+(* the loops over the text and the recursion of factor are fuelled; the fuel is never used up *)
+Theorem C14_rx_valid_fuel_enough : forall s, rx_parse s <> OutOfFuel.
+Proof. exact rx_parse_fuel_enough. Qed.
+Print Assumptions C14_rx_valid_fuel_enough.
+
+(* every string is parsed or rejected with one of the error codes of regexp/syntax (ErrInternal stands for a
+   state the Go parser cannot be in: it is not reached) *)
+Theorem C14_rx_parse_total : forall s,
+  (exists re, rx_parse s = Ok re) \/ (exists e, rx_parse s = Err e /\ e <> ErrInternal).
+Proof. exact rx_parse_total. Qed.
+Print Assumptions C14_rx_parse_total.
+
+(* [rx_valid s = false] always stands for an error of the parser, never for exhausted fuel *)
+Theorem C14_rx_valid_spec : forall s,
+  (rx_valid s = true /\ exists re, rx_parse s = Ok re) \/
+  (rx_valid s = false /\ exists e, rx_parse s = Err e /\ e <> ErrInternal).
+Proof. exact rx_valid_spec. Qed.
+Print Assumptions C14_rx_valid_spec.
+
+(* each turn of the parse loop reads at least one byte of the expression *)
+Theorem C14_rx_lex_progress : forall fuel flags b t tok rest,
+  lex fuel flags b t = Ok (tok, rest) -> (length rest <= length t)%nat.
+Proof. exact lex_lt. Qed.
+Print Assumptions C14_rx_lex_progress.
+
+(* factor, the one recursion that is not on the text: on alternatives of total weight below the fuel it
+   answers, and its answer is not heavier *)
+Theorem C14_rx_factor_fuel : forall fuel l p, (weights l < fuel)%nat ->
+  factor fuel l p <> OutOfFuel /\ forall l' p', factor fuel l p = Ok (l', p') -> (weights l' <= weights l)%nat.
+Proof.
+  intros fuel l p H. destruct (factor_ok fuel l p H) as [[Hf _] Hw]. split; [exact Hf|exact Hw].
+Qed.
+Print Assumptions C14_rx_factor_fuel.
+
+(* one expression per error code, and some that compile *)
+Example C14_rx_examples :
+  rx_valid [] = true /\
+  rx_valid [94;65;115;115;101;116;115;58;40;63;105;41;91;97;45;122;93;43;36] = true /\            (* ^Assets:(?i)[a-z]+$ *)
+  rx_valid [40;63;80;60;110;62;97;124;98;41;123;50;44;51;125;63;92;112;123;71;114;101;101;107;125] = true /\  (* (?P<n>a|b){2,3}?\p{Greek} *)
+  rx_parse [40] = Err ErrMissingParen /\                         (* ( *)
+  rx_parse [41] = Err ErrUnexpectedParen /\                      (* ) *)
+  rx_parse [91;97] = Err ErrMissingBracket /\                    (* [a *)
+  rx_parse [91;122;45;97;93] = Err ErrCharRange /\               (* [z-a] *)
+  rx_parse [92;112;123;70;111;111;125] = Err ErrCharRange /\     (* \p{Foo} *)
+  rx_parse [92;113] = Err ErrEscape /\                           (* \q *)
+  rx_parse [92] = Err ErrTrailingBackslash /\
+  rx_parse [42] = Err ErrMissingRepeatArg /\                     (* * *)
+  rx_parse [97;42;42] = Err ErrRepeatOp /\                       (* a** *)
+  rx_parse [97;123;49;48;48;49;125] = Err ErrRepeatSize /\       (* a{1001} *)
+  rx_parse [40;97;123;53;48;48;125;41;123;51;125] = Err ErrRepeatSize /\   (* (a{500}){3} *)
+  rx_parse [40;63;80;60;49;45;62;97;41] = Err ErrNamedCapture /\ (* (?P<1->a) *)
+  rx_parse [40;63;120;41] = Err ErrPerlOp /\                     (* (?x) *)
+  rx_parse [97;255] = Err ErrUTF8.
+Proof. vm_compute. repeat split. Qed.
+
+(* the nesting limit: 999 groups around a literal parse, 1000 do not *)
+Example C14_rx_nesting_limit :
+  rx_valid (List.repeat 40 999 ++ [97] ++ List.repeat 41 999) = true /\
+  rx_parse (List.repeat 40 1000 ++ [97] ++ List.repeat 41 1000) = Err ErrNestingDepth.
+Proof. vm_compute. split; reflexivity. Qed.
